@@ -104,6 +104,9 @@ static void vss_fn(void* p)
     else if (!strcmp(c->op, "getdata")) Avtp_Vss_GetVssData(c->pdu, &c->data);
     else if (!strcmp(c->op, "pad")) Avtp_Vss_Pad(c->pdu, (uint16_t)c->n);
 }
+/* what a result descriptor holds on entry is not an input of the decoder (the specification has no such parameter): the harness leaves
+ * a different stale length there on each call - as a descriptor reused for a sequence of messages would */
+static uint16_t stale_len(void) { static const uint16_t v[8] = { 0xBEEF, 1, 0, 3, 0xFFFF, 2, 7, 0x0100 }; static unsigned k; return v[k++ & 7]; }
 static int cmd_vss(char** tok, int nt)
 {
     static uint8_t arena_b[EXT_MAXARENA], arg_b[EXT_MAXARENA], host_b[EXT_MAXARENA], res_b[EXT_MAXARENA];
@@ -118,7 +121,7 @@ static int cmd_vss(char** tok, int nt)
     int es = elem_size(c.dt);
     uint8_t* dest = NULL; size_t reslen = 0; int have_res = 0, dirty = 0;
     memset(&c.data, 0xCD, sizeof c.data); memset(&c.path, 0xCD, sizeof c.path);
-    c.arr.data_length = 0xBEEF; c.arr.data = NULL;
+    c.arr.data_length = stale_len(); c.arr.data = NULL;
     if (!strcmp(c.op, "putpath")) {
         if (c.mode == 1) { uint32_t id = 0; for (size_t i = 0; i < 4 && i < arglen; i++) id = (id << 8) | arg_b[i]; c.path.vss_static_id_path = id; }
         else { c.path.vss_interop_path.path_length = (uint16_t)arglen; c.path.vss_interop_path.path = (char*)ext_source(arg_b, arglen); }
@@ -132,7 +135,7 @@ static int cmd_vss(char** tok, int nt)
             c.data.data_string = (VssDataString_t*)&c.arr; }
         else memcpy(&c.data, host_b, es);          /* scalar members all start at offset 0 of the union */
     } else if (!strcmp(c.op, "getpath")) {
-        if (c.mode != 1) { dest = ext_dest(0, cap, 0xCD); c.path.vss_interop_path.path = (char*)dest; c.path.vss_interop_path.path_length = 0xBEEF; }
+        if (c.mode != 1) { dest = ext_dest(0, cap, 0xCD); c.path.vss_interop_path.path = (char*)dest; c.path.vss_interop_path.path_length = stale_len(); }
     } else if (!strcmp(c.op, "getdata")) {
         if (is_var(c.dt)) { dest = c.n ? ext_dest(0, cap, 0xCD) : NULL; c.arr.data = dest; c.data.data_string = (VssDataString_t*)&c.arr; }
     }
@@ -187,7 +190,7 @@ static int cmd_sa(char** tok, int nt)
         }
         if (!strcmp(tok[3], "none")) c.n = 0;
         uint8_t* dest = ext_dest(0, cap, 0xCD);
-        c.arr.data = dest; c.arr.data_length = 0xBEEF;
+        c.arr.data = dest; c.arr.data_length = stale_len();
         ext_call(sa_fn, &c, status, sizeof status, dest);
         printf("R %s len=%u data=", status, (unsigned)c.arr.data_length); puthex(dest, cap); printf(" dirty=%d\n", ext_dest_dirty(0, cap, 0xCD));
         return 1;
@@ -261,10 +264,20 @@ static int cmd_bo(char** tok, int nt)
 /* ------------------------------------------------------------------ raw by-descriptor API (C01/C02 shapes, C14)
  * Y <op> <q> <off> <w> <val16> <base> <place> <poff> <arenahex>       op: get | set                      */
 #include "avtp/Utils.h"
-typedef struct { int set; Avtp_FieldDescriptor_t tab[3]; uint8_t* hdr; uint64_t val, ret; } RawCtx;
+typedef struct { int set; Avtp_FieldDescriptor_t tab[3]; uint8_t* hdr; uint64_t val, ret, val2, r0, r1; } RawCtx;
 static void raw_fn(void* p)
 {
     RawCtx* c = p;
+    if (c->set == 2) {      /* gsg: get, set, get, set, get in one function, identical arguments */
+        const Avtp_FieldDescriptor_t* tab = c->tab; uint8_t* hdr = c->hdr; uint64_t v1 = c->val, v2 = c->val2;
+        uint64_t r0 = Avtp_GetField(tab, 3, hdr, 1);
+        Avtp_SetField(tab, 3, hdr, 1, v1);
+        uint64_t r1 = Avtp_GetField(tab, 3, hdr, 1);
+        Avtp_SetField(tab, 3, hdr, 1, v2);
+        uint64_t r2 = Avtp_GetField(tab, 3, hdr, 1);
+        c->r0 = r0; c->r1 = r1; c->ret = r2;
+        return;
+    }
     if (c->set) Avtp_SetField(c->tab, 3, c->hdr, 1, c->val); else c->ret = Avtp_GetField(c->tab, 3, c->hdr, 1);
 }
 static int cmd_raw(char** tok, int nt)
@@ -272,18 +285,20 @@ static int cmd_raw(char** tok, int nt)
     static uint8_t arena_b[EXT_MAXARENA]; uint8_t vb[8];
     if (nt < 10) return 0;
     RawCtx c; memset(&c, 0, sizeof c);
-    c.set = !strcmp(tok[1], "set");
+    c.set = !strcmp(tok[1], "set") ? 1 : !strcmp(tok[1], "gsg") ? 2 : 0;
     c.tab[0].quadlet = 0; c.tab[0].offset = 0; c.tab[0].bits = 8;
     c.tab[1].quadlet = (uint8_t)atoi(tok[2]); c.tab[1].offset = (uint8_t)atoi(tok[3]); c.tab[1].bits = (uint8_t)atoi(tok[4]);
     c.tab[2].quadlet = 1; c.tab[2].offset = 4; c.tab[2].bits = 12;
-    unhex(tok[5], vb, 8); c.val = be64x(vb);
+    uint8_t vb2[16] = {0}; unhex(tok[5], vb2, 16); memcpy(vb, vb2, 8); c.val = be64x(vb); c.val2 = be64x(vb2 + 8);
     long base = atol(tok[6]); char place = tok[7][0]; long off = atol(tok[8]);
     size_t alen = unhex(tok[9], arena_b, sizeof arena_b);
     uint8_t* arena = ext_place(place, off, arena_b, alen);
     c.hdr = arena + base;
     char status[64];
     ext_call(raw_fn, &c, status, sizeof status, arena);
-    ext_result(status, c.ret, 0, 0, arena, alen); putchar('\n');
+    ext_result(status, c.ret, 0, c.set == 2 ? c.r1 : 0, arena, alen);
+    if (c.set == 2) { uint8_t b[8]; uint64_t x = c.r0; for (int i = 7; i >= 0; i--) { b[i] = (uint8_t)x; x >>= 8; } printf(" r0="); puthex(b, 8); }
+    putchar('\n');
     return 1;
 }
 
